@@ -96,6 +96,7 @@ type Lemma struct {
 	Concl []*Clause
 	Props []string
 	Induct string
+	Trigger *CExpr
 }
 
 type Macro struct {
@@ -328,6 +329,15 @@ func ParseContractFile(path string, cs *ContractSet) error {
 			cur.Pure = true
 		case "fresh":
 			cur.Fresh = true
+		case "trigger":
+			if curLemma == nil {
+				return fail("trigger outside lemma")
+			}
+			e, err := ParseCExpr(rest)
+			if err != nil {
+				return fail(err.Error())
+			}
+			curLemma.Trigger = e
 		case "induct":
 			if curLemma != nil {
 				curLemma.Induct = strings.TrimSpace(rest)
